@@ -31,7 +31,11 @@ type recorder struct {
 	dataMsgs int
 	incMsgs  int
 	opens    [2][]uint64 // identifiers of open messages seen per sender
+	idBase   uint64      // identifiers are recorded relative to this base (cases run at the top of the identifier space)
 }
+
+// sid converts a real stream identifier to the recorded one.
+func (r *recorder) sid(id uint64) int { return int(clamp(id - r.idBase)) }
 
 func newRecorder(cid string) *recorder { return &recorder{cid: cid} }
 
@@ -56,7 +60,7 @@ func (r *recorder) tap(withData, record bool) func(int, *wireMsg) {
 		if m.Kind == "hb" {
 			return
 		}
-		rec := map[string]any{"ev": "Wire", "e": from, "k": m.Kind, "s": int(m.Stream), "a": int(clamp(m.Arg)), "d": []int{}}
+		rec := map[string]any{"ev": "Wire", "e": from, "k": m.Kind, "s": r.sid(m.Stream), "a": int(clamp(m.Arg)), "d": []int{}}
 		if withData && m.Kind == "data" {
 			rec["d"] = ints(m.Data)
 		}
@@ -87,7 +91,7 @@ func (r *recorder) openID(e, idx int) int {
 	r.mu.Lock()
 	defer r.mu.Unlock()
 	if idx < len(r.opens[e]) {
-		return int(r.opens[e][idx])
+		return r.sid(r.opens[e][idx])
 	}
 	return 0
 }
@@ -117,6 +121,8 @@ func errKind(err error) string {
 		return "timeout"
 	case errors.Is(err, context.Canceled), errors.Is(err, context.DeadlineExceeded):
 		return "canceled"
+	case err.Error() == "local stream identifiers exhausted":
+		return "exhausted"
 	case errors.Is(err, net.ErrClosed):
 		if strings.HasPrefix(err.Error(), "remote") {
 			return "rclosed"
@@ -157,16 +163,18 @@ func isClosedChan(ch <-chan struct{}) bool {
 	}
 }
 
-// streamID extracts the identifier from the public address of a stream ("local:N").
-func streamID(s *multiplexing.Stream) int {
+// streamIDu extracts the identifier from the public address of a stream ("local:N").
+func streamIDu(s *multiplexing.Stream) uint64 {
 	a := s.LocalAddr().String()
 	if i := strings.IndexByte(a, ':'); i >= 0 {
-		if n, err := strconv.Atoi(a[i+1:]); err == nil {
+		if n, err := strconv.ParseUint(a[i+1:], 10, 64); err == nil {
 			return n
 		}
 	}
 	return 0
 }
+
+func streamID(s *multiplexing.Stream) int { return int(clamp(streamIDu(s))) }
 
 // callResult is the outcome of one real call run under a watchdog.
 type callResult struct {
